@@ -217,6 +217,24 @@ func buildOps(src []byte, thorough bool) []Op {
 			ops = append(ops, Op{Kind: "SetAttributeTraversal", Nested: nested, Name: n, Raw: travSrc})
 			ops = append(ops, Op{Kind: "RemoveAttribute", Nested: nested, Name: n})
 		}
+		// a name that is a proper prefix of an existing attribute's name (names are looked up
+		// whole): setting it adds a new attribute, removing it removes nothing
+		if len(attrs) > 0 && len(attrs[0]) > 1 {
+			pre := attrs[0][:len(attrs[0])-1]
+			taken := false
+			for _, a := range attrs {
+				taken = taken || a == pre
+			}
+			if !taken {
+				for _, v := range Values {
+					if v.Quick || thorough {
+						ops = append(ops, Op{Kind: "SetAttributeValue", Nested: nested, Name: pre, Val: v.ID})
+						break
+					}
+				}
+				ops = append(ops, Op{Kind: "RemoveAttribute", Nested: nested, Name: pre})
+			}
+		}
 		for _, l := range LabelSets {
 			if l.Quick || thorough {
 				ops = append(ops, Op{Kind: "AppendNewBlock", Nested: nested, Name: "nb", Labels: l.ID})
